@@ -44,6 +44,7 @@ void harness(void)
     struct AbstractFile is; is.buf = b; is.fileSize = len; is.rdstate = 0; is.gcount = 0;
     __CPROVER_assume(is.g >= 0 && is.g <= len);
     buf0 = b; fs0 = len; g0 = is.g; vb_exc = 0;
+    { int64_t t; K = t; }   /* the observed position is arbitrary (globals are zero-initialised in C) */
     __CPROVER_assume(K >= 0 && K <= len);
     ObjectHeaderBase_read(&o, &is);
     __CPROVER_assert(vb_exc == 0 || (vb_exc == VB_EXC_BLF && (is.rdstate & IOS_eofbit) != 0), "C09/ObjectHeaderBase/read/exception-only-at-end-of-stream");
